@@ -3086,9 +3086,13 @@ impl Server {
                 let timeout_str = String::from_utf8_lossy(bytes);
                 // Try parsing as float first to handle both integer and decimal values
                 match timeout_str.parse::<f64>() {
-                    Ok(t) if t < 0.0 => return Ok(RespFrame::error("ERR timeout is not a float or out of range")),
-                    Ok(0.0) => None, // 0 means block forever
-                    Ok(t) => Some(std::time::Duration::from_secs_f64(t)),
+                    Ok(t) if t.is_nan() || t < 0.0 => return Ok(RespFrame::error("ERR timeout is not a float or out of range")),
+                    Ok(t) if t == 0.0 => None, // 0 means block forever
+                    // inf / 1e400 / values beyond what a Duration holds are refused, not converted with a panic
+                    Ok(t) => match std::time::Duration::try_from_secs_f64(t) {
+                        Ok(d) => Some(d),
+                        Err(_) => return Ok(RespFrame::error("ERR timeout is not a float or out of range")),
+                    },
                     Err(_) => return Ok(RespFrame::error("ERR timeout is not a float or out of range")),
                 }
             }
@@ -3117,7 +3121,8 @@ impl Server {
         }
         
         // No data available, register as blocked
-        let deadline = timeout.map(|t| Instant::now() + t);
+        // a timeout too distant for the clock is the same as waiting forever
+        let deadline = timeout.and_then(|t| Instant::now().checked_add(t));
         self.blocking_manager.register_blocked(db_index, conn_id, keys.clone(), BlockingOp::BLPop, deadline)?;
         
         // Move connection to blocked state
@@ -3145,9 +3150,13 @@ impl Server {
                 let timeout_str = String::from_utf8_lossy(bytes);
                 // Try parsing as float first to handle both integer and decimal values
                 match timeout_str.parse::<f64>() {
-                    Ok(t) if t < 0.0 => return Ok(RespFrame::error("ERR timeout is not a float or out of range")),
-                    Ok(0.0) => None, // 0 means block forever
-                    Ok(t) => Some(std::time::Duration::from_secs_f64(t)),
+                    Ok(t) if t.is_nan() || t < 0.0 => return Ok(RespFrame::error("ERR timeout is not a float or out of range")),
+                    Ok(t) if t == 0.0 => None, // 0 means block forever
+                    // inf / 1e400 / values beyond what a Duration holds are refused, not converted with a panic
+                    Ok(t) => match std::time::Duration::try_from_secs_f64(t) {
+                        Ok(d) => Some(d),
+                        Err(_) => return Ok(RespFrame::error("ERR timeout is not a float or out of range")),
+                    },
                     Err(_) => return Ok(RespFrame::error("ERR timeout is not a float or out of range")),
                 }
             }
@@ -3176,7 +3185,8 @@ impl Server {
         }
         
         // No data available, register as blocked
-        let deadline = timeout.map(|t| Instant::now() + t);
+        // a timeout too distant for the clock is the same as waiting forever
+        let deadline = timeout.and_then(|t| Instant::now().checked_add(t));
         self.blocking_manager.register_blocked(db_index, conn_id, keys.clone(), BlockingOp::BRPop, deadline)?;
         
         // Move connection to blocked state
